@@ -327,13 +327,36 @@ func (j *Job) start() error {
 		j.log.Info("running")
 		j.status.Set(StatusRunning)
 
+		assembly := j.assembly
 		j.checkpointTicker = j.clock.Every(1*time.Minute, func(tc *clocks.EveryContext) {
-			cpID, err := j.snapshotStore.CreateCheckpoint(j.assembly.OperatorIDs(), j.assembly.SourceRunnerIDs())
-			if errors.Is(err, snapshots.ErrCheckpointInProgress) {
+			// The checkpoint is created on the task queue, serially with status
+			// changes: a tick that is in flight while the assembly is being
+			// replaced must not start a checkpoint on the next assembly before
+			// it is deployed (or after its start abandoned pending checkpoints).
+			type created struct {
+				id   uint64
+				err  error
+				skip bool
+			}
+			done := make(chan created, 1)
+			j.taskQueue <- func() error {
+				if j.status.Value() != StatusRunning || j.assembly != assembly {
+					done <- created{skip: true}
+					return nil
+				}
+				id, err := j.snapshotStore.CreateCheckpoint(assembly.OperatorIDs(), assembly.SourceRunnerIDs())
+				done <- created{id: id, err: err}
+				return nil
+			}
+			res := <-done
+			if res.skip {
+				return
+			}
+			if errors.Is(res.err, snapshots.ErrCheckpointInProgress) {
 				tc.RetryIn(1 * time.Second)
 				return
 			}
-			if err := j.assembly.StartCheckpoint(context.Background(), cpID); err != nil {
+			if err := assembly.StartCheckpoint(context.Background(), res.id); err != nil {
 				j.log.Error("failed to start checkpoint", "err", err)
 			}
 		}, "checkpointing")
